@@ -460,7 +460,7 @@ def rule_d(ctx, out):
         "and": [True, False, p, q, mk("and", p, q), mk("not", p), mk("or", p, q)],
         "or": [True, False, p, q, mk("or", p, q), mk("not", q), mk("and", p, q)],
         "not": [True, False, p, mk("not", p), mk("not", mk("not", q)), mk("and", p, q)],
-        "=>": [True, False, p, q, mk("not", p)],
+        "=>": [True, False, p, q, mk("not", p), mk("=>", p, q), mk("=>", q, p), mk("=>", p, p), mk("and", p, q), mk("or", p, q)],
         "=": [True, False, p, q],
     }
     vals = [dict(p=a, q=b) for a in (False, True) for b in (False, True)]
